@@ -674,6 +674,10 @@ func registerTime(e *Engine) {
 	})
 	e.reg("(*time.Timer).Stop", func(ex *Exec, fr *frame, args []Value) Value { return True })
 	e.reg("(*time.Timer).Reset", func(ex *Exec, fr *frame, args []Value) Value { return True })
+	e.reg(vxPath+".OnTick", func(ex *Exec, fr *frame, args []Value) Value {
+		ex.ghost["ontick"] = &onTick{n: int(ex.concreteInt(args[0], "OnTick n", true)), f: args[1]}
+		return nil
+	})
 	e.reg("(*time.Ticker).Stop", func(ex *Exec, fr *frame, args []Value) Value { return nil })
 	e.reg("(*time.Ticker).Reset", func(ex *Exec, fr *frame, args []Value) Value { return nil })
 	e.reg("time.AfterFunc", func(ex *Exec, fr *frame, args []Value) Value {
